@@ -69,3 +69,68 @@ def boundary_offsets(asked, blocked, total_len):
             if 0 <= mk + d <= total_len:
                 out.add(mk + d)
     return sorted(out)
+
+
+def minimise_items(scn, oracle, judge, seconds=90, alts=()):
+    """generic minimiser for pipeline-like scenarios: simpler configuration, fewer records /
+    messages, shorter records, plainer content, fewer message keys.  `judge(scn)` -> fails."""
+    from .. import shrink
+    from ..kernel import spec_len
+    dl = shrink.Deadline(seconds)
+
+    def ok(c):
+        try:
+            return any(f["oracle"] == oracle for f in judge(c))
+        except Exception:
+            return False
+
+    base = dict(scn)
+    if not ok(base):
+        return scn
+    for alt in alts:
+        cand = dict(base, **alt)
+        if cand != base and not dl.over() and ok(cand):
+            base = cand
+    key = "records" if base.get("level", "vbs") == "vbs" else "messages"
+    if key not in base:
+        return base
+
+    def with_items(lst, b=None):
+        return dict(b or base, **{key: lst})
+
+    if base.get("writer_ops"):
+        # ops reference item indexes: drop write ops together with their items
+        return base
+    lst = shrink.ddmin(base[key], lambda l: ok(with_items(l)), dl, min_len=0)
+    base = with_items(lst)
+    if key == "records":
+        for i in range(len(lst)):
+            if dl.over():
+                break
+            n0 = spec_len(base[key][i])
+
+            def test_len(n, i=i):
+                c = list(base[key])
+                c[i] = {"pos": [0, n]}
+                return ok(with_items(c))
+            if test_len(n0):
+                n = shrink.shrink_int(n0, 1, test_len, dl)
+                c = list(base[key])
+                c[i] = {"pos": [0, n]}
+                base = with_items(c)
+    else:
+        for i in range(len(lst)):
+            if dl.over():
+                break
+            msg = base[key][i]
+            keys = [k for k in msg if k != "MTI"]
+
+            def test_keys(ks, i=i, msg=msg):
+                c = list(base[key])
+                c[i] = {k: v for k, v in msg.items() if k == "MTI" or k in ks}
+                return ok(with_items(c))
+            ks = shrink.ddmin(keys, test_keys, dl)
+            c = list(base[key])
+            c[i] = {k: v for k, v in msg.items() if k == "MTI" or k in ks}
+            base = with_items(c)
+    return base
